@@ -18,7 +18,7 @@ def statics_of(crate):
     return crate.items["statics"]
 
 
-def statics_inventory(an, rep, crates=None):
+def statics_inventory(an, rep, crates=None, ignore=(), floor=2):
     R = rep.rule("S1", "the only statics are lazy_static handles (zero-sized) and their `Lazy<AdtMetadata>` cells; no "
                        "`static mut`, no other interior-mutable static, no thread_local")
     crates = crates or [an.core()]
@@ -26,6 +26,8 @@ def statics_inventory(an, rep, crates=None):
     for crate in crates:
         handle_types = set()
         for st in statics_of(crate):
+            if st["path"].startswith(ignore) and ignore:
+                continue
             n += 1
             ty = st["ty"]
             where = "%s:%s" % (st["span"]["f"], st["span"]["l"])
@@ -53,16 +55,16 @@ def statics_inventory(an, rep, crates=None):
             for bb, t, info in mir.calls(b):
                 if info["key"].startswith("LocalKey<T>::"):
                     R.fail(b.key, "thread_local access", "thread-local state is accessed", mir.loc(b, bb))
-    R.floor("statics", n, 2)
+    R.floor("statics", n, floor)
     return R
 
 
-ALLOWED_INIT_CRATES = ("core", "alloc", "hashbrown", "desert_core", "lazy_static", "foldhash", "std")
+ALLOWED_INIT_CRATES = ("core", "alloc", "hashbrown", "desert_core", "lazy_static", "foldhash", "std", "desert")
 DENY_INIT = ("std::env", "std::time", "std::fs", "std::net", "std::thread", "std::process", "std::io", "std::sync",
              "core::sync::atomic", "std::sys", "std::os", "rand", "getrandom")
 
 
-def lazy_initialisers(an, rep, crates=None):
+def lazy_initialisers(an, rep, crates=None, floor=1):
     R = rep.rule("S2", "every lazy_static initialiser is closed: the functions it reaches read no static and call "
                        "nothing from env/time/fs/net/thread/io/sync/atomic, so its value is the same whoever wins the Once")
     crates = crates or [an.core()]
@@ -95,7 +97,7 @@ def lazy_initialisers(an, rep, crates=None):
                                "set (crate %s)" % info["krate"], mir.loc(b, bb), {"path": path})
             if okk:
                 R.ok(sample={"initialiser": init.key, "functions_reached": len(reach)})
-    R.floor("lazy initialisers", n, 1)
+    R.floor("lazy initialisers", n, floor)
     return R
 
 
